@@ -225,7 +225,7 @@ class Exp:
         self.vals, self.throw = vals, throw
 
     def show(self):
-        parts = [str(v)[:160] for v in self.vals]
+        parts = ["null" if v is None else str(v)[:160] for v in self.vals]
         if self.throw:
             parts.append("<raises>")
         return " or ".join(parts)
@@ -293,6 +293,7 @@ class Runner:
     def __init__(self, sh, w, prelude):
         self.sh, self.w, self.prelude = sh, w, prelude
         self.perkey = {}
+        self.njudged = 0
         self.pending = []        # (stmt_text, [cases])  read cases, batched
         self.wpending = []       # write cases, one per statement, x observed
 
@@ -422,8 +423,10 @@ class Runner:
                              "after %s (%s) x = %s, expected %s" % (c.text, "ok" if o == "ok" else "raised", str(gx)[:160], str(want)[:160]),
                              self.replay(c))
                 return
-        sh.sample({"case": c.text, "outcome": o, "observed": ev.get("v") if o == "ok" else ev.get("err"),
-                   "expected": c.exp.show()}, cap=5)
+        self.njudged += 1
+        if c.m.n >= 3 and self.njudged % 1009 == 0:
+            sh.sample({"case": c.text, "sequence": c.m.text, "outcome": o, "observed": ev.get("v") if o == "ok" else ev.get("err"),
+                       "expected": c.exp.show(), "x_afterwards": (ev.get("vars") or {}).get("x")}, cap=5)
 
 
 def pcls(a, b, n):
